@@ -1,4 +1,5 @@
 import Driver.Util
+import Driver.Containers
 
 /-
   One function per op of the line protocol.  Each takes the op's JSON (which also carries the
@@ -128,6 +129,8 @@ def dispatch (j : Json) : Except String Res := do
   match op with
   | "expand" | "apply" | "indent" | "pad" | "wrap" | "dumbwrap" | "snip" | "center"
   | "replacelast" | "setlength" | "scrub" | "squash" | "height" | "unicode" => ansiOp op j
+  | "history" => historyOp j
+  | "feed" => feedOp j
   | _ => throw s!"unknown op {op}"
 
 end Ops
